@@ -11,6 +11,8 @@ import (
 	"path/filepath"
 	"strings"
 	"sync"
+	"sync/atomic"
+	"time"
 
 	tpl "code.gopub.tech/tpl"
 	"code.gopub.tech/tpl/types"
@@ -85,6 +87,86 @@ func raceMain(args []string) {
 			close(start)
 			wg.Wait()
 			total += G
+		}
+	} else if *mode == "deep" {
+		// many executions that are DEEP inside nested fragments at the same moment: a data-bounded recursive fragment
+		// whose innermost level calls a barrier function, so that all goroutines are at their full depth together
+		// (each alone stays far below the engine's nesting bound; nothing per-manager may add them up)
+		src := `<template :define="r"><i :text="${n}">o</i><b :with="n := ${n - 1}" :if="${n > 0}" :insert="r">x</b><u :else :text="${sync()}">o</u></template><div :insert="r">x</div>`
+		for round := 0; round < *rounds; round++ {
+			rc := &renderCase{Files: [][2]string{{"t", src}}, Tpl: "t"}
+			m, lerr, p := implLoad(rc, nil)
+			ref, lerr2, _ := implLoad(rc, nil)
+			if lerr != nil || p != nil || lerr2 != nil {
+				fmt.Println("RACE-RESULT " + `{"executions":0,"mismatches":1,"samples":["deep template does not load"]}`)
+				return
+			}
+			G := 8 + r.n(6)
+			var arrived int32
+			release := make(chan struct{})
+			var once sync.Once
+			barrier := func() string {
+				if int(atomic.AddInt32(&arrived, 1)) >= G {
+					once.Do(func() { close(release) })
+				}
+				select {
+				case <-release:
+				case <-time.After(3 * time.Second):
+				}
+				return "!"
+			}
+			depths := make([]int, G)
+			want := make([]string, G)
+			for g := 0; g < G; g++ {
+				depths[g] = 35 + r.n(25)
+				t, _ := ref.tm.GetTemplate("t")
+				w := &chunkWriter{failAt: -1}
+				if err := t.Execute(w, map[string]any{"n": depths[g], "sync": func() string { return "!" }}); err != nil {
+					want[g] = "ERR"
+				} else {
+					want[g] = strings.Join(w.chunks, "")
+				}
+			}
+			shareObject := round%2 == 0
+			sharedT, _ := m.tm.GetTemplate("t")
+			var wg sync.WaitGroup
+			got := make([]string, G)
+			for g := 0; g < G; g++ {
+				wg.Add(1)
+				go func(g int) {
+					defer wg.Done()
+					t := sharedT
+					if !shareObject {
+						t, _ = m.tm.GetTemplate("t")
+					}
+					w := &chunkWriter{failAt: -1}
+					defer func() {
+						if x := recover(); x != nil {
+							got[g] = "PANIC " + fmt.Sprint(x)
+						}
+					}()
+					if err := t.Execute(w, map[string]any{"n": depths[g], "sync": barrier}); err != nil {
+						got[g] = "ERR " + err.Error()
+						// a failed execution never reaches the barrier: let the others go
+						if int(atomic.AddInt32(&arrived, 1)) >= G {
+							once.Do(func() { close(release) })
+						}
+					} else {
+						got[g] = strings.Join(w.chunks, "")
+					}
+				}(g)
+			}
+			wg.Wait()
+			for g := 0; g < G; g++ {
+				total++
+				if got[g] != want[g] {
+					mismatches++
+					if len(samples) < 5 {
+						samples = append(samples, J{"files": rc.Files, "goroutines": G, "depth": depths[g], "shared_object": shareObject,
+							"serial": trunc(want[g], 120), "concurrent": trunc(got[g], 200)})
+					}
+				}
+			}
 		}
 	} else {
 		for round := 0; round < *rounds; round++ {
@@ -180,7 +262,7 @@ func raceMain(args []string) {
 // C15: concurrent rendering from one manager is race-free and equals serial.
 func propC15(c *ctx) error {
 	res := c.res
-	res.Rule = "rounds of 2..64 goroutines started behind a barrier on a freshly loaded manager (first-ever executions), same or different templates, shared or per-goroutine template objects, per-goroutine data and writers, under the Go race detector; every output/error is compared with the serial result on an identical manager; distinct = distinct (round seed, goroutine); non-trivial = all"
+	res.Rule = "rounds of 2..64 goroutines started behind a barrier on a freshly loaded manager (first-ever executions), same or different templates, rounds of 8..13 executions held at fragment depth 35..60 simultaneously by a barrier function, shared or per-goroutine template objects, per-goroutine data and writers, under the Go race detector; every output/error is compared with the serial result on an identical manager; distinct = distinct (round seed, goroutine); non-trivial = all"
 	bin := filepath.Join(os.Getenv("VERIF_BUILD"), "harness-race")
 	if _, err := os.Stat(bin); err != nil {
 		res.SelfTest = append(res.SelfTest, "race harness binary missing: "+bin)
@@ -223,6 +305,9 @@ func propC15(c *ctx) error {
 	}
 	if c.prop == "C18" {
 		return run("reload", c.n(40, 1500))
+	}
+	if err := run("deep", c.n(6, 80)); err != nil {
+		return err
 	}
 	return run("render", c.n(120, 5000))
 }
